@@ -183,6 +183,8 @@ def run_shard(task):
             if tier == "thorough":
                 phases = [Phase.generate, Phase.shrink]
 
+            seen = []
+
             @hypothesis.seed(_shard_seed(seed, subname, shard))
             @settings(
                 max_examples=n,
@@ -201,12 +203,24 @@ def run_shard(task):
                 except Violation as v:
                     if v.spec is None:
                         v.spec = spec
+                    seen.append(v)
                     raise
 
             try:
                 prop_test()
             except Violation as v:
                 out["failure"] = _viol_dict(v)
+            except BaseException as e:  # noqa: BLE001
+                # Hypothesis executes a failing example once more before reporting it; when that second execution in the same process
+                # ends differently (the library keeps something from one call to the next) it raises Flaky / an exception group instead
+                # of the failure.  The oracle's verdict on the first execution stands: it was reached on real code from a generated case.
+                flaky = type(e).__name__ in ("Flaky", "FlakyFailure", "FlakyReplay", "ExceptionGroup", "BaseExceptionGroup") or isinstance(e, hypothesis.errors.HypothesisException)
+                if seen and flaky:
+                    d = _viol_dict(seen[0])
+                    d["message"] += "  [the outcome changed when the same case was executed again in this process: it depends on what ran before]"
+                    out["failure"] = d
+                else:
+                    raise
         out.update(ctx.result())
     except Violation as v:  # raised outside the loop (should not happen)
         out["failure"] = _viol_dict(v)
